@@ -656,27 +656,32 @@ def chain_work(params):
     return p
 
 
-def rear_program(nbuilt):
+def rear_program(nbuilt, shared):
+    """framer main owns `nbuilt` build-time insular clones of moot worker in frame pool; moots worker and helper can be reared.
+    shared: worker's frame additionally uses the plain original aux framer `shared` (one instance used by every clone)."""
     L = ["house h", "  framer main be active first pool", "    frame pool"]
     L += ["      aux worker as mine"] * nbuilt
     L += ["      print pool",
-          "  framer worker be moot first w1", "    frame w1", "      print w",
+          "  framer worker be moot first w1", "    frame w1"] + (["      aux shared"] if shared else []) + ["      print w",
           "  framer helper be moot first h1", "    frame h1", "      print h"]
+    if shared:
+        L += ["  framer shared be aux first s1", "    frame s1", "      print s"]
     return "\n".join(L) + "\n"
 
 
 def rear_work(params):
-    """Run-time rearing on top of build-time insular clones, at the API level: what the Rearer / Razer actors do
-    (framer.newAuxTag, original.clone(surname_tag), framer.auxes[tag] = clone / clone.prune(), del framer.auxes[tag])."""
+    """Run-time rearing / razing on top of build-time insular clones: the real Rearer.action and Razer.action bodies are called
+    (with a stand-in for the actor's self, which they only use for .store and ._act.frame.outline)."""
     core.use_repo()
-    from ioflo.base import framing, excepting
+    import types
+    from ioflo.base import framing, excepting, acting
     from ioflo.base.globaling import AUX
     p = core.Part()
-    for nbuilt, seq in params:
-        case = "build-time 'aux worker as mine' x%d then %s" % (nbuilt, " ".join(seq) or "(nothing)")
-        text = rear_program(nbuilt)
+    for nbuilt, shared, seq in params:
+        case = "%sbuild-time 'aux worker as mine' x%d then %s" % ("worker uses shared 'aux shared'; " if shared else "", nbuilt, " ".join(seq) or "(nothing)")
+        text = rear_program(nbuilt, shared)
         p.evaluations += 1
-        p.nontrivial(("rear", nbuilt, seq))
+        p.nontrivial(("rear", nbuilt, shared, seq))
         with core.watchdog(60):
             ok, b = build_program(text)
         if not ok:
@@ -686,61 +691,71 @@ def rear_work(params):
         reg = house.names["tasker"]
         main = reg["main"]
         pool = main.frameNames["pool"]
-        reared = []
+        originals = [f for f in house.framers if f.original]
+        actor = types.SimpleNamespace(store=house.store, _act=types.SimpleNamespace(frame=types.SimpleNamespace(outline=[]), human="", count=0))
         bad = None
+
+        def live_framers():
+            out, todo = [], list(originals) + [a for a in pool.auxes if isinstance(a, framing.Framer)]
+            while todo:
+                f = todo.pop()
+                if any(f is g for g in out):
+                    continue
+                out.append(f)
+                for fr in f.frameNames.values():
+                    todo += [a for a in fr.auxes if isinstance(a, framing.Framer)]
+            return out
+
         for step in seq:
+            house.assignRegistries()
             if step.startswith("rear-"):
                 original = reg[step[5:]]
-                house.assignRegistries()
-                tag = main.newAuxTag(base=original.tag)
-                name = "_".join((main.surname, tag))
-                if tag in main.auxes:
-                    bad = ("rear|generated-tag-in-use", "newAuxTag(base=%r) returned %r, already a tag of framer main: %r" % (original.tag, tag, list(main.auxes.keys())))
-                    break
-                if name in reg:
-                    bad = ("rear|generated-name-in-use", "generated clone name %r is already registered in the house" % name)
-                    break
+                before = list(main.auxes.keys())
+                nbefore = len(pool.auxes)
                 try:
-                    clone = original.clone(name=name, tag=tag, schedule=AUX)
+                    acting.Rearer.action(actor, original=original, clone="mine", schedule=AUX, frame=pool, framer=main)
                 except excepting.CloneError as ex:
                     bad = ("rear|CloneError", "rearing %s raised CloneError: %s" % (step[5:], "".join(map(str, ex.args))))
                     break
-                clone.original = False
-                clone.insular = True
-                clone.razeable = True
-                main.auxes[tag] = clone
-                pool.addAux(clone)
-                clone.main = pool
-                reared.append(clone)
-            else:                       # raze-first / raze-last of the reared (razeable) clones, as Razer does
-                if not reared:
-                    continue
-                aux = reared.pop(0 if step == "raze-first" else -1)
-                house.assignRegistries()
-                aux.prune()
-                pool.auxes.remove(aux)
-                if aux.tag in main.auxes:
-                    del main.auxes[aux.tag]
-            live = [main] + [a for a in pool.auxes if isinstance(a, framing.Framer)]
+                new = [t for t in main.auxes.keys() if t not in before]
+                if len(new) != 1 or len(pool.auxes) != nbefore + 1:
+                    bad = ("rear|generated-tag-in-use", "rearing %s did not add exactly one new tag: tags before %r, after %r"
+                           % (step[5:], before, list(main.auxes.keys())))
+                    break
+            else:                       # raze first / last razeable clone in the frame: the real Razer.action
+                acting.Razer.action(actor, who=step[5:], frame=pool, framer=main)
+            live = live_framers()
             names = [f.name for f in live]
             if len(set(names)) != len(names):
                 bad = ("rear|live-framers-share-name", "live framers %r" % sorted(names))
                 break
             for f in live:
                 if reg.get(f.name) is not f:
-                    bad = ("rear|live-framer-not-registered", "framer %r is not the instance registered under its name" % f.name)
+                    bad = ("rear|live-framer-not-registered", "after %s live framer %r is not the instance registered under its name in the house" % (step, f.name))
                     break
             if bad:
                 break
-            if sorted(main.auxes.keys()) != sorted(a.tag for a in pool.auxes):
-                bad = ("rear|auxes-tags-differ", "framer.auxes tags %r, clones in the frame %r" % (sorted(main.auxes.keys()), sorted(a.tag for a in pool.auxes)))
+            if sorted(t for t, a in main.auxes.items() if not a.original) != sorted(a.tag for a in pool.auxes):
+                bad = ("rear|auxes-tags-differ", "framer.auxes clone tags %r, clones in the frame %r"
+                       % (sorted(t for t, a in main.auxes.items() if not a.original), sorted(a.tag for a in pool.auxes)))
                 break
+        if not bad:
+            # explicit duplicates of the live originals' names must still be rejected in this house
+            house.assignRegistries()
+            for f in originals:
+                try:
+                    framing.Framer(name=f.name, store=house.store)
+                    bad = ("rear|duplicate-of-live-framer-accepted", "after the sequence Framer(name=%r) was accepted although framer %r of the house is live" % (f.name, f.name))
+                    break
+                except excepting.ParameterError:
+                    pass
         if bad:
             p.outcome("rear:" + bad[0])
-            p.violation(bad[0], case, bad[1], dict(program=text, steps=list(seq), built_clones=nbuilt,
-                        how="build the program, then per step do what Rearer.action / Razer.action do on framer main, frame pool"))
+            p.violation(bad[0], case, bad[1], dict(program=text, steps=list(seq), built_clones=nbuilt, shared_aux=shared,
+                        how="build the program, then per step call acting.Rearer.action(self, original, 'mine', AUX, frame pool, framer main) / "
+                            "acting.Razer.action(self, who, frame pool, framer main) with a stand-in self carrying .store and ._act.frame.outline=[]"))
         else:
-            p.outcome("rear:ok built=%d" % nbuilt)
+            p.outcome("rear:ok built=%d%s" % (nbuilt, " shared-aux" if shared else ""))
             p.notes["reared_clones"] += sum(1 for x in seq if x.startswith("rear-"))
     return p
 
@@ -933,8 +948,9 @@ def run():
     pparts.append(collide_work(cplans))
     # run-time rearing after build-time insular clones: every sequence of rear/raze steps, shortest first
     steps = ("rear-worker", "rear-helper", "raze-first", "raze-last")
-    rears = [(nb, seq) for n in range(1, (3 if QUICK else 5) + 1) for nb in ((0, 1, 2) if QUICK else (0, 1, 2, 3))
-             for seq in itertools.product(steps, repeat=n) if seq[0].startswith("rear-") and seq[-1].startswith("rear-")]
+    rears = [(nb, sh, seq) for n in range(1, (3 if QUICK else 5) + 1) for sh in (False, True)
+             for nb in (((0, 1, 2) if not sh else (0, 1)) if QUICK else (0, 1, 2, 3))
+             for seq in itertools.product(steps, repeat=n) if seq[0].startswith("rear-")]
     pparts += core.pmap(rear_work, [rears[i::8] for i in range(8)], procs=min(core.NPROC, 8)) if not QUICK else [rear_work(rears)]
     pv = []
     for p in pparts:
@@ -948,8 +964,9 @@ def run():
     ck.assumptions = [
         "plans whose generated clone names coincide through underscores in framer names / tags may be rejected at build (what the unchanged code does) or "
         "accepted with distinct names; accepting them with two live framers under one name is the violation",
-        "run-time rearing is driven at the API level with the exact calls of Rearer.action / Razer.action (newAuxTag, clone, auxes bookkeeping, prune); "
-        "a generated tag must differ from every tag in framer.auxes and the generated name from every registered name; re-use of a razed clone's tag is allowed",
+        "run-time rearing / razing calls the real Rearer.action / Razer.action bodies with a stand-in for the actor's self; each rear must add exactly one new "
+        "tag to framer.auxes without CloneError (re-use of a razed clone's tag is allowed); after every step every live framer of the house (originals, incl. a plain "
+        "aux shared by the clones, and the clones still attached) is the instance registered under its name, and explicit duplicates of the originals are rejected afterwards",
         "Framer.prune() ends the framer's life; it releases the name only in the tasker namespace that is current and only if that namespace holds this very instance "
         "(a same-named live framer of another house must stay registered)",
         "Clear() starts a fresh class-level namespace (it rebinds the class registry); a house's own registry is untouched and becomes current again on assignRegistries()",
